@@ -58,14 +58,14 @@ JOBS.append({
     "functions": [EX],
     "loops": [{
         "fn": EX, "idx": 0, "line": r"while \(outlen > 0\)",
-        "assigns": "out, outlen, len, __CPROVER_object_whole(&hmac), __CPROVER_object_whole(state), __CPROVER_object_whole(tjv_out0), tjv_fill_base, tjv_fill_len, tjv_hm_inits, tjv_hm_finals, tjv_hm_reinits, tjv_hm_upd, tjv_hm_open, tjv_hm_last1, tjv_hm_have1, tjv_hm_last4, tjv_hm_have4",
+        "assigns": "out, outlen, len, __CPROVER_object_whole(&hmac), __CPROVER_object_whole(state), __CPROVER_object_whole(tjv_out0), tjv_fill_base, tjv_fill_len, tjv_hm_finals_at_init, tjv_hm_inits, tjv_hm_finals, tjv_hm_reinits, tjv_hm_upd, tjv_hm_open, tjv_hm_last1, tjv_hm_have1, tjv_hm_last4, tjv_hm_have4",
         "inv": ("outlen <= LE(outlen) && out == LE(out) + (LE(outlen) - outlen) && __CPROVER_same_object(out, tjv_out0) && pstate->posn >= 1 && pstate->posn <= 32 && (outlen > 0 ==> pstate->posn == 32) && "
                 "SERVED == SERVED0 + (long)(LE(outlen) - outlen) && "
                 "tjv_hm_inits == LE(tjv_hm_inits) + (unsigned long)(BB - BB0) && tjv_hm_finals == LE(tjv_hm_finals) + (unsigned long)(BB - BB0)"
                 ).replace("SERVED0", SERVED0).replace("SERVED", SERVED).replace("BB0", B0).replace("BB", B).replace("LE(", LE + "("),
         "dec": "outlen",
         "map": {"out": EX + "::out", "outlen": EX + "::outlen", "len": EX + "::1::len", "hmac": EX + "::1::hmac", "state": EX + "::state",
-                "pstate": EX + "::1::pstate", "tjv_out0": "tjv_out0", "tjv_fill_base": "tjv_fill_base", "tjv_fill_len": "tjv_fill_len", "tjv_hm_inits": "tjv_hm_inits", "tjv_hm_finals": "tjv_hm_finals", "tjv_hm_reinits": "tjv_hm_reinits",
+                "pstate": EX + "::1::pstate", "tjv_out0": "tjv_out0", "tjv_fill_base": "tjv_fill_base", "tjv_fill_len": "tjv_fill_len", "tjv_hm_finals_at_init": "tjv_hm_finals_at_init", "tjv_hm_inits": "tjv_hm_inits", "tjv_hm_finals": "tjv_hm_finals", "tjv_hm_reinits": "tjv_hm_reinits",
                 "tjv_hm_upd": "tjv_hm_upd", "tjv_hm_open": "tjv_hm_open", "tjv_hm_last1": "tjv_hm_last1", "tjv_hm_have1": "tjv_hm_have1",
                 "tjv_hm_last4": "tjv_hm_last4", "tjv_hm_have4": "tjv_hm_have4"},
     }],
